@@ -49,6 +49,7 @@ EXNS = {"KeyError", "IndexError", "AssertionError", "TypeError", "ValueError", "
 
 ENUM_TYPES: dict[str, dict[str, int]] = {}  # filled from the descriptor in rdf_pb2.py by translate_unit
 MESSAGES: dict[str, list[dict]] = {}  # message name -> fields, from the same descriptor
+FROZEN: set[str] = set()  # classes declared @dataclass(frozen=True): their instances are never changed in place
 TYPE_ALIASES: dict[str, ast.AST] = {}  # `X: TypeAlias = ...` of the module being translated
 
 
@@ -81,7 +82,7 @@ def coq_type(t) -> str:
         return "(" + " * ".join(coq_type(x) for x in t[1]) + ")"
     if isinstance(t, tuple) and t[0] == "set":
         return f"(list {coq_type(t[1])})"
-    if t == "msg":
+    if isinstance(t, tuple) and t[0] == "pb":
         return "(pbval K)"
     bad(None, f"no Coq type for {t}")
 
@@ -95,6 +96,8 @@ def compat(t, want) -> bool:
             return len(t[1]) == len(want[1]) and all(compat(a, b) for a, b in zip(t[1], want[1]))
         if t[0] in ("seq", "set", "opt"):
             return compat(t[1], want[1])
+        if t[0] == "pb":
+            return t[1] == want[1]
     return False
 
 
@@ -102,7 +105,9 @@ def is_mutable(t) -> bool:
     """Values Python passes by reference and the translated source may change in place."""
     if t == ("seq", "int"):
         return False  # bytes
-    return t == "msg" or (isinstance(t, tuple) and t[0] in ("obj", "set", "seq"))
+    if isinstance(t, tuple) and t[0] == "obj" and t[1] in FROZEN:
+        return False  # @dataclass(frozen=True)
+    return isinstance(t, tuple) and t[0] in ("pb", "obj", "set", "seq")
 
 
 def ann_type(a, classes) -> object:
@@ -123,7 +128,7 @@ def ann_type(a, classes) -> object:
     if isinstance(a, ast.Attribute) and isinstance(a.value, ast.Name) and a.value.id == "jelly" and a.attr in ENUM_TYPES:
         return "int"  # protobuf enum values are ints
     if isinstance(a, ast.Attribute) and isinstance(a.value, ast.Name) and a.value.id == "jelly" and a.attr in MESSAGES:
-        return "msg"
+        return ("pb", a.attr)
     if isinstance(a, ast.Attribute) and isinstance(a.value, ast.Name) and a.value.id == "options" and a.attr in classes:
         return ("obj", a.attr)
     if isinstance(a, ast.Name) and a.id in TYPE_ALIASES:
@@ -170,6 +175,7 @@ class ClassInfo:
         self.fields: list[tuple[str, object]] = []
         self.methods: dict[str, tuple[list[tuple[str, object]], object]] = {}  # name -> (params, ret)
         self.static: set[str] = set()  # methods with in/out parameters that do not use self
+        self.inout: set[str] = set()  # methods that use self and have message in/out parameters
         self.defaults: dict[str, ast.AST] = {}  # dataclass field defaults (constants)
 
     def ftype(self, f):
@@ -185,6 +191,7 @@ class Translator:
         self.classes: dict[str, ClassInfo] = {}
         self.functions: dict[str, tuple[list, object]] = {}
         self.int_sets: dict[str, list] = {}
+        self.str_consts: dict[str, str] = {}  # module-level string constants of pyjelly/options.py
         self.method_selection: dict[str, list[str]] = {}  # class -> the methods that belong to the unit
         self.out: list[str] = []
         self.fresh = 0
@@ -220,10 +227,14 @@ class Translator:
             ret = ann_type(m.returns, self.classes) if m.name != "__init__" else ("obj", node.name)
             info.methods[m.name] = (params, ret)
             if m.name != "__init__" and any(is_mutable(t) for _, t in params):
-                # in/out parameters: only for helpers that leave self alone (no aliasing between self and the arguments)
+                # in/out parameters.  A helper that leaves self alone is translated without self; one that uses self
+                # may only take messages in/out (a message cannot be one of self's tables: no aliasing)
                 if any(isinstance(x, ast.Name) and x.id == "self" for x in ast.walk(ast.Module(body=m.body, type_ignores=[]))):
-                    bad(m, "a method that both uses self and changes its arguments in place")
-                info.static.add(m.name)
+                    if not all(t[0] == "pb" for _, t in params if is_mutable(t)):
+                        bad(m, "a method that both uses self and changes a table or a collection passed to it")
+                    info.inout.add(m.name)
+                else:
+                    info.static.add(m.name)
         init = next((m for m in methods if m.name == "__init__"), None)
         if init is None:
             bad(node, "class without __init__")
@@ -260,10 +271,12 @@ class Translator:
             if m.name in info.static:
                 emit_function(self, f"{info.name}_{m.name}", m.body, params, ret)
                 continue
-            mode = MethodMode(self, info, ret)
+            muts = [(p, t) for p, t in params if is_mutable(t)] if m.name in info.inout else []
+            mode = MethodMode(self, info, ret, muts)
             body = mode.stmts(m.body, env)
             ps = " ".join(f"({mangle(p)} : {coq_type(t)})" for p, t in params)
-            self.out.append(f"Definition {info.name}_{m.name} {ps} (self : {info.name}) : outcome {coq_type(ret)} * {info.name} :=\n{body}.")
+            rt = f"outcome {coq_type(ret)} * {info.name}" + "".join(f" * {coq_type(t)}" for _, t in muts)
+            self.out.append(f"Definition {info.name}_{m.name} {ps} (self : {info.name}) : {rt} :=\n{body}.")
 
 
 def _add_dataclass(self, node: ast.ClassDef):
@@ -271,6 +284,9 @@ def _add_dataclass(self, node: ast.ClassDef):
     constructor takes them all and then runs __post_init__."""
     info = ClassInfo(node.name)
     self.classes[node.name] = info
+    if any(isinstance(d, ast.Call) and any(kw.arg == "frozen" and isinstance(kw.value, ast.Constant) and kw.value.value is True for kw in d.keywords)
+           for d in node.decorator_list):
+        FROZEN.add(node.name)
     methods = []
     for n in node.body:
         if isinstance(n, ast.Expr) and isinstance(n.value, ast.Constant) and isinstance(n.value.value, str):
@@ -367,6 +383,13 @@ class Mode:
                 and isinstance(s.value.args[0], ast.Name) and s.value.args[0].id == "self" and isinstance(s.value.args[1], ast.Constant)
                 and isinstance(s.value.args[1].value, str) and not s.value.keywords):
             return self.expr(s.value.args[2], env, lambda v, t: self.write_field(s.value.args[1].value, v, t, lambda: self.stmts(rest, env)))
+        # <local message>.CopyFrom(m)
+        if (isinstance(s, ast.Expr) and isinstance(s.value, ast.Call) and isinstance(s.value.func, ast.Attribute) and s.value.func.attr == "CopyFrom"
+                and isinstance(s.value.func.value, ast.Name) and isinstance(env.get(s.value.func.value.id), tuple)
+                and env[s.value.func.value.id][0] == "pb" and len(s.value.args) == 1 and not s.value.keywords):
+            x, xt = s.value.func.value.id, env[s.value.func.value.id]
+            return self.expr(s.value.args[0], env, lambda v, t: (
+                f"let {mangle(x)} := {v} in\n{self.stmts(rest, env)}" if compat(t, xt) else bad(s, "CopyFrom of another message type")))
         # <list>.append(x) / <set>.add(x) / <list|set>.clear() on a local name or on self.<field>
         if (isinstance(s, ast.Expr) and isinstance(s.value, ast.Call) and isinstance(s.value.func, ast.Attribute)
                 and s.value.func.attr in ("append", "add", "clear", "extend") and not s.value.keywords):
@@ -445,6 +468,27 @@ class Mode:
             env_some[x] = t[1]
             return (f"match {mangle(x)} with\n| None =>\n{self.stmts(none_b + rest, dict(env))}\n| Some {mangle(x)} =>\n{self.stmts(some_b + rest, env_some)}\nend")
         if isinstance(s, ast.If):
+            first = s.test.values[0] if isinstance(s.test, ast.BoolOp) and isinstance(s.test.op, ast.And) else s.test
+            if isinstance(first, ast.Name) and env.get(first.id) == "none":
+                return self.stmts(s.orelse + rest, env)  # this copy of the continuation knows the variable holds None
+            if isinstance(first, ast.Name) and isinstance(env.get(first.id), tuple) and env[first.id][0] == "opt" and env[first.id][1] in ("int", "str"):
+                # a truthy optional is not None: inside the test's remaining operands and in the body the variable
+                # has its inner type (what mypy calls narrowing); in the else branch it keeps the optional type
+                x, inner_t = first.id, env[first.id][1]
+                env_in = dict(env)
+                env_in[x] = inner_t
+                truthy = f"(negb ({mangle(x)} =? 0))" if inner_t == "int" else f"(negb (str_is_empty {mangle(x)}))"
+                else_code = self.stmts(s.orelse + rest, dict(env))
+                # inside `Some x =>` the Coq variable holds the inner value: give the optional back to the else branch
+                else_some = f"let {mangle(x)} := Some {mangle(x)} in\n{else_code}"
+                if first is s.test:
+                    inner = f"if {truthy} then\n{self.stmts(s.body + rest, env_in)}\nelse\n{else_some}"
+                else:
+                    tail = s.test.values[1] if len(s.test.values) == 2 else ast.BoolOp(op=ast.And(), values=s.test.values[1:])
+                    inner = (f"if {truthy} then\n" + self.cond(tail, env_in, lambda c: f"if {c} then\n{self.stmts(s.body + rest, env_in)}\nelse\n{self.stmts(s.orelse + rest, dict(env_in))}")
+                             + f"\nelse\n{else_some}")
+                return f"match {mangle(x)} with\n| Some {mangle(x)} =>\n{inner}\n| None =>\n{else_code}\nend"
+        if isinstance(s, ast.If):
             return self.cond(s.test, env, lambda c: f"if {c} then\n{self.stmts(s.body + rest, dict(env))}\nelse\n{self.stmts(s.orelse + rest, dict(env))}")
         if isinstance(s, ast.Try):
             if s.orelse or s.finalbody or len(s.handlers) != 1:
@@ -479,6 +523,18 @@ class Mode:
                 if s.value is None:
                     bad(s, "bare annotation")
             val = s.value
+            # [*xs] = seq : a fresh list with the items of seq
+            if isinstance(tgt, ast.List) and len(tgt.elts) == 1 and isinstance(tgt.elts[0], ast.Starred) and isinstance(tgt.elts[0].value, ast.Name):
+                tgt = tgt.elts[0].value
+                inner_k = None
+
+                def k_copy(v, t, tgt=tgt):
+                    if not (isinstance(t, tuple) and t[0] == "seq"):
+                        bad(s, "unpacking a non-sequence into a list")
+                    env2 = dict(env)
+                    env2[tgt.id] = t
+                    return f"let {mangle(tgt.id)} := {v} in\n{self.stmts(rest, env2)}"
+                return self.expr(val, env, k_copy)
             # the name of an enum value, used in messages only: jelly.<Enum>.Name(x) raises ValueError for a number
             # that is not a value of the enum
             if (isinstance(tgt, ast.Name) and isinstance(val, ast.Call) and isinstance(val.func, ast.Attribute) and val.func.attr == "Name"
@@ -532,6 +588,21 @@ class Mode:
                         names.append(mangle(e.id))
                     return f"let '({', '.join(names)}) := {v} in\n{self.stmts(rest, env2)}"
                 return self.expr(val, env, k)
+            if isinstance(tgt, ast.Attribute) and isinstance(tgt.value, ast.Name) and isinstance(env.get(tgt.value.id), tuple) \
+                    and env[tgt.value.id][0] == "pb":
+                mname, x = env[tgt.value.id][1], mangle(tgt.value.id)
+                fd = next((d for d in MESSAGES[mname] if d["name"] == tgt.attr), None)
+                if fd is None:
+                    bad(s, f"{mname} has no field {tgt.attr}")
+                group = [d["name"] for d in MESSAGES[mname] if fd["oneof"] is not None and d["oneof"] == fd["oneof"]] or [tgt.attr]
+
+                def k_set(v, t):
+                    w = {"int": "PInt", "bool": "PBool", "str": "PStr"}.get(t)
+                    if w is None and not (isinstance(t, tuple) and t[0] == "pb"):
+                        bad(s, f"message field of type {t}")
+                    gl = "[" + "; ".join(f'"{g}"%string' for g in group) + "]"
+                    return f'let {x} := msg_set {gl} "{tgt.attr}"%string ({w + " " + v if w else v}) {x} in\n{self.stmts(rest, env)}'
+                return self.expr(val, env, k_set)
             if isinstance(tgt, ast.Attribute) and isinstance(tgt.value, ast.Name) and tgt.value.id == "self":
                 def k_fld(v, t):
                     if isinstance(s, ast.AnnAssign):
@@ -622,7 +693,8 @@ class Mode:
             if t == "str":
                 return k(f"(negb (str_is_empty {v}))")
             if isinstance(t, tuple) and t[0] == "opt":
-                return k(f"(match {v} with Some _ => true | None => false end)")
+                inner = {"int": "negb (x_ =? 0)", "str": "negb (str_is_empty x_)", "bool": "x_"}.get(t[1], "true")
+                return k(f"(match {v} with Some x_ => {inner} | None => false end)")
             if isinstance(t, tuple) and t[0] in ("seq", "set"):
                 return k(f"(negb (seq_len {v} =? 0))")
             if t == "none":
@@ -675,6 +747,8 @@ class Mode:
             if e.id in tr.consts:
                 return k(f"({tr.consts[e.id]})", "int")
             bad(e, "unknown name")
+        if isinstance(e, ast.Attribute) and isinstance(e.value, ast.Name) and e.value.id == "options" and e.attr in tr.str_consts:
+            return k("(str_lit [" + "; ".join(str(ord(c)) for c in tr.str_consts[e.attr]) + "])", "str")
         if isinstance(e, ast.Attribute) and isinstance(e.value, ast.Name) and e.value.id == "jelly":
             for vals in ENUM_TYPES.values():
                 if e.attr in vals:
@@ -843,7 +917,7 @@ class Mode:
             return self.expr(ex, env, lambda v, t: go(rest[1:], acc + [self.coerce(v, t, pt, call)]))
         return go(exprs, [])
 
-    def call_static(self, fname, e, params, ret, env, k) -> str:
+    def call_static(self, fname, e, params, ret, env, k, with_self=False) -> str:
         """A helper whose mutable parameters (objects, sets, lists, messages) come back updated:
         fname args : outcome R * M1 * .. * Mn.  Every mutable argument must be an lvalue (self.f or a local
         name), all distinct; it is written back after the call, also when the call raised."""
@@ -872,7 +946,8 @@ class Mode:
         outs = [tr.gensym("m") for _ in muts]
 
         def after(a):
-            code = f"let '({', '.join([r] + outs)}) := {fname} {' '.join(a)} in\n"
+            code = (f"let '({', '.join([r, 'self'] + outs)}) := {fname} {' '.join(a)} self in\n" if with_self
+                    else f"let '({', '.join([r] + outs)}) := {fname} {' '.join(a)} in\n")
             env2 = env
             wb = []
             for (kind, name), o, (_, pt) in zip(keys, outs, muts):
@@ -891,6 +966,24 @@ class Mode:
                 return self.write_field(name, o, pt, lambda: chain(i + 1))
             return code + chain(0)
         return self.args(e, params, env, after)
+
+    def call_inout_on_local(self, sub, objname, meth, e, env, k) -> str:
+        """obj.m(args) where obj is a local object and m changes message arguments in place."""
+        tr = self.tr
+        params, ret = sub.methods[meth]
+        r, ex, x = tr.gensym("r"), tr.gensym("e"), tr.gensym("x")
+        by_name = {kw.arg: kw.value for kw in e.keywords}
+        actuals = [e.args[i] if i < len(e.args) else by_name.get(p) for i, (p, _) in enumerate(params)]
+        if any(a is None for a in actuals) or len(e.args) + len(e.keywords) != len(params):
+            bad(e, "arguments")
+        muts = [a for a, (_, pt) in zip(actuals, params) if is_mutable(pt)]
+        if not all(isinstance(a, ast.Name) and a.id in env for a in muts) or len({a.id for a in muts}) != len(muts):
+            bad(e, "a message passed to be changed in place must be a local name")
+        nm = mangle(objname)
+        outs = [mangle(a.id) for a in muts]
+        return self.args(e, params, env, lambda a: (
+            f"let '({', '.join([r, nm] + outs)}) := {sub.name}_{meth} {' '.join(a)} {nm} in\nmatch {r} with\n| Exn {ex} => {self.on_exn(ex)}\n"
+            f"| Val {x} =>\n{k('tt' if ret == 'none' else x, ret)}\nend"))
 
     def call(self, e, env, k) -> str:
         tr = self.tr
@@ -945,14 +1038,14 @@ class Mode:
 
             def go_m(rest, acc):
                 if not rest:
-                    return k(f'(PMsg "{f.attr}"%string [' + "; ".join(acc) + "])", "msg")
+                    return k(f'(PMsg "{f.attr}"%string [' + "; ".join(acc) + "])", ("pb", f.attr))
                 kw = rest[0]
                 if kw.arg not in fields:
                     bad(e, f"{f.attr} has no field {kw.arg}")
 
                 def k_v(v, t):
                     w = {"int": "PInt", "bool": "PBool", "str": "PStr"}.get(t)
-                    if w is None and t != "msg":
+                    if w is None and not (isinstance(t, tuple) and t[0] == "pb"):
                         bad(e, f"message field of type {t}")
                     return go_m(rest[1:], acc + [f'("{kw.arg}"%string, {f"{w} {v}" if w else v})'])
                 return self.expr(kw.value, env, k_v)
@@ -976,6 +1069,8 @@ class Mode:
         # <local object>.m(..): the object is a parameter or a local, updated in place
         if isinstance(f.value, ast.Name) and isinstance(env.get(f.value.id), tuple) and env[f.value.id][0] == "obj":
             sub = tr.classes[env[f.value.id][1]]
+            if f.attr in sub.inout:
+                return self.call_inout_on_local(sub, f.value.id, f.attr, e, env, k)
             if f.attr not in sub.methods or f.attr == "__init__" or f.attr in sub.static:
                 bad(e, "unknown method of a local object")
             params, ret = sub.methods[f.attr]
@@ -990,6 +1085,8 @@ class Mode:
             params, ret = self.info.methods[f.attr]
             if f.attr in self.info.static:
                 return self.call_static(f"{self.info.name}_{f.attr}", e, params, ret, env, k)
+            if f.attr in self.info.inout:
+                return self.call_static(f"{self.info.name}_{f.attr}", e, params, ret, env, k, with_self=True)
             return self.args(e, params, env, lambda a: self.call_self(f.attr, a, ret, r, ex, x, k))
         # self.f.m(..): a built-in container or an owned object
         if isinstance(f.value, ast.Attribute) and isinstance(f.value.value, ast.Name) and f.value.value.id == "self":
@@ -1015,21 +1112,25 @@ class Mode:
 
 
 class MethodMode(Mode):
-    def __init__(self, tr, info, ret):
+    def __init__(self, tr, info, ret, muts=()):
         super().__init__(tr, info)
         self.ret = ret
+        self.muts = list(muts)  # message in/out parameters: their current values go back with every result
+
+    def wrap(self, o):
+        return "(" + ", ".join([o, "self"] + [mangle(p) for p, _ in self.muts]) + ")"
 
     def ret_val(self, v, t):
-        return f"(Val {self.coerce(v, t, self.ret, None)}, self)"
+        return self.wrap(f"Val {self.coerce(v, t, self.ret, None)}")
 
     def ret_exn(self, e):
-        return f"(Exn {e}, self)"
+        return self.wrap(f"Exn {e}")
 
     def fall_off(self):
         if self.ret == "none":
-            return "(Val tt, self)"
+            return self.wrap("Val tt")
         if isinstance(self.ret, tuple) and self.ret[0] == "opt":
-            return "(Val None, self)"
+            return self.wrap("Val None")
         bad(None, f"{self.info.name}: a method returning {self.ret} can end without a return")
 
     def read_field(self, f):
@@ -1042,6 +1143,8 @@ class MethodMode(Mode):
         return f"let self := set_{self.info.name}_{f} {self.coerce(v, t, want, None)} self in\n{rest()}"
 
     def handler_fun(self, ss, env):
+        if self.muts:
+            bad(None, "try inside a method with in/out parameters")
         return f"(fun self : {self.info.name} =>\n{self.stmts(ss, env)})"
 
     def call_handler(self, h):
@@ -1156,7 +1259,9 @@ UNITS = {
     "options": {"src": "pyjelly/options.py", "ctx": True, "uses": [], "gen": "OptionsGen",
                 "items": ["TRIPLES_ONLY_LOGICAL_TYPES", "validate_type_compatibility", "LookupPreset", "StreamTypes", "StreamParameters"]},
     "encode": {"src": "pyjelly/serialize/encode.py", "ctx": True, "uses": ["lookup_enc", "options"], "gen": "EncodeGen",
-               "items": ["split_iri", ("TermEncoder", ["__init__", "start_statement", "_entry_index", "encode_iri_indices"])]},
+               "items": ["split_iri", ("TermEncoder", ["__init__", "start_statement", "_entry_index", "encode_iri_indices", "encode_iri",
+                                                       "encode_default_graph", "encode_literal"]),
+                         "encode_namespace_declaration", "encode_options"]},
 }
 
 
@@ -1205,6 +1310,10 @@ def run_unit(repo: Path, unit: str) -> tuple["Translator", set[str], list[str]]:
     MESSAGES.update(pbdesc.messages(repo / "pyjelly/jelly/rdf_pb2.py"))
     opts = module_consts(repo / "pyjelly/options.py")
     tr = Translator(dict(opts) if rel == "pyjelly/options.py" else {})
+    for n in ast.parse((repo / "pyjelly/options.py").read_text()).body:
+        if isinstance(n, ast.Assign) and len(n.targets) == 1 and isinstance(n.targets[0], ast.Name) and isinstance(n.value, ast.Constant) \
+                and isinstance(n.value.value, str) and n.value.value.isascii():
+            tr.str_consts[n.targets[0].id] = n.value.value
     imported_uses: set[str] = set()
     tr.abbrev: list[str] = []
     for dep in u["uses"]:
